@@ -1044,7 +1044,9 @@ pub struct Cursor<Word, Buf> {
     /// `ReadWords<Word, Stack>.
     ///
     /// Satisfies the invariant `pos <= buf.as_ref().len()` if `Buf: AsRef<[Word]>` (see
-    /// unsafe trait `SafeBuf`).
+    /// trait `SafeBuf`) unless the caller shrinks or replaces the buffer through
+    /// [`buf_mut`](Self::buf_mut). Since safe code can do that, the invariant must not be
+    /// relied upon for memory safety: all accesses to `buf` are bounds checked.
     pos: usize,
 
     phantom: PhantomData<Word>,
@@ -1060,16 +1062,17 @@ pub struct Cursor<Word, Buf> {
 ///   by either of these calls must not decrease.
 ///
 /// This is very likely the behaviour you would expect anyway for `AsRef` and `AsMut`. This
-/// guarantee allows the implementation of `ReadWords<Word, Stack>` for [`Cursor`] to elide
-/// an additional pedantic bounds check by maintaining an in-bounds invariant on its index
-/// into the buffer.
+/// guarantee allows a [`Cursor`] to maintain an in-bounds invariant on its index into the
+/// buffer (as long as the buffer is not shrunk or replaced through [`Cursor::buf_mut`]).
 ///
 /// # Safety
 ///
 /// If `SafeBuf` is implemented for a type `Buf` that violates the above contract then the
 /// implementations of `ReadWords<Word, Stack>::read` for `Cursor<Word, Buf>` and of
-/// `WriteWords<Word>` for `Reverse<Cursor<Word, Buf>>` may attempt to access the buffer out
-/// of bounds without bounds checks.
+/// `WriteWords<Word>` for `Reverse<Cursor<Word, Buf>>` may panic. They no longer access the
+/// buffer without bounds checks (because [`Cursor::buf_mut`] allows safe code to invalidate
+/// the index for any buffer type), so implementing this trait can no longer cause undefined
+/// behavior; it remains `unsafe` only for backward compatibility.
 pub unsafe trait SafeBuf<Word>: AsRef<[Word]> {}
 
 unsafe impl<Word> SafeBuf<Word> for &[Word] {}
@@ -1334,6 +1337,13 @@ impl<Word, Buf> Cursor<Word, Buf> {
     ///
     /// To get the actual mutable slice of `Word`s, call `cursor.buf().as_mut()` (if `Buf`
     /// implements `AsMut`).
+    ///
+    /// If you use the returned reference to shrink the buffer (e.g., `Vec::truncate`) or to
+    /// replace it with a shorter one, so that the current position ends up beyond the end of
+    /// the buffer, then you should [`seek`](Seek::seek) to a valid position before you use
+    /// the `Cursor` again. Otherwise, reads with `Queue` semantics return `Ok(None)`, writes
+    /// return `Err(OutOfSpace)`, and reads with `Stack` semantics (as well as writes to and
+    /// `Queue` reads from a [`Reverse`]d `Cursor`) panic.
     pub fn buf_mut(&mut self) -> &mut Buf {
         &mut self.buf
     }
@@ -1415,14 +1425,12 @@ impl<Word, Buf: SafeBuf<Word> + AsMut<[Word]>> WriteWords<Word> for Reverse<Curs
         if self.0.pos == 0 {
             Err(BoundedWriteError::OutOfSpace)
         } else {
+            // We normally have `self.0.pos <= self.0.buf.as_mut().len()`, but safe code can
+            // break this invariant by shrinking the buffer through `Cursor::buf_mut`, so the
+            // index has to be bounds checked (it panics in that case, leaving `pos` unchanged).
+            self.0.buf.as_mut()[self.0.pos - 1] = word;
             self.0.pos -= 1;
-            unsafe {
-                // SAFETY: We maintain the invariant `self.0.pos <= self.0.buf.as_mut().len()`
-                // and we just decreased `self.0.pos` (and made sure that didn't wrap around),
-                // so we now have `self.0.pos < self.0.buf.as_mut().len()`.
-                *self.0.buf.as_mut().get_unchecked_mut(self.0.pos) = word;
-                Ok(())
-            }
+            Ok(())
         }
     }
 }
@@ -1472,13 +1480,12 @@ impl<Word: Clone, Buf: SafeBuf<Word>> ReadWords<Word, Stack> for Cursor<Word, Bu
         if self.pos == 0 {
             Ok(None)
         } else {
+            // We normally have `self.pos <= self.buf.as_ref().len()`, but safe code can break
+            // this invariant by shrinking the buffer through `Cursor::buf_mut`, so the index
+            // has to be bounds checked (it panics in that case, leaving `pos` unchanged).
+            let word = self.buf.as_ref()[self.pos - 1].clone();
             self.pos -= 1;
-            unsafe {
-                // SAFETY: We maintain the invariant `self.pos <= self.buf.as_ref().len()`
-                // and we just decreased `self.pos` (and made sure that didn't wrap around),
-                // so we now have `self.pos < self.buf.as_ref().len()`.
-                Ok(Some(self.buf.as_ref().get_unchecked(self.pos).clone()))
-            }
+            Ok(Some(word))
         }
     }
 
